@@ -1239,3 +1239,126 @@ pub fn aborteq(args: &[String]) -> i32 {
     w.flush().ok();
     0
 }
+
+/// C17, observed on the REAL search: every quiescence node a search enters is recorded by the event sink together
+/// with the move list the node is about to examine.  One `reset` + one `qnode` event per distinct node; TLC
+/// (ChessTrace.tla) requires the list to be the tactical moves of the position, or every legal move when the side to
+/// move is in check.  Nodes in check and nodes with promotions are always kept, the others are sampled.
+pub fn qnodes(args: &[String]) -> i32 {
+    let seed: u64 = arg(args, "--seed", "1").parse().unwrap();
+    let want: usize = arg(args, "--positions", "20").parse().unwrap();
+    let fam: usize = arg(args, "--kpk", "20").parse().unwrap();
+    let maxdepth: u8 = arg(args, "--maxdepth", "2").parse().unwrap();
+    let cap: usize = arg(args, "--max-nodes", "400").parse().unwrap();
+    let fens = arg(args, "--fens", "");
+    let out_path = arg(args, "--out", "");
+    let mg = MoveGenerator::new();
+    let mut rng = rand::rngs::StdRng::seed_from_u64(seed);
+    let mut w = std::io::BufWriter::new(std::fs::File::create(&out_path).unwrap());
+    let mut boards: Vec<Board> = vec![];
+    if !fens.is_empty() {
+        for l in std::fs::read_to_string(&fens).unwrap().lines() {
+            if let Ok(b) = proj::build(l.trim()) {
+                boards.push(b);
+            }
+        }
+    }
+    // kings + one or two pawns on the seventh rank (+ sometimes one more man), either side to move: promotions
+    // (also capture-promotions) with the kings anywhere - in particular on the pawn's file or diagonal
+    let mut guard = 0;
+    let target = boards.len() + fam;
+    while boards.len() < target && guard < fam * 50 {
+        guard += 1;
+        let mut cs = vec![0i32; 64];
+        let black = rng.gen_bool(0.5);
+        let f = rng.gen_range(0..8usize);
+        cs[if black { 8 + f } else { 48 + f }] = if black { 7 } else { 1 };
+        if rng.gen_bool(0.3) {
+            let f2 = rng.gen_range(0..8usize);
+            let q = if black { 8 + f2 } else { 48 + f2 };
+            if cs[q] == 0 {
+                cs[q] = if black { 7 } else { 1 };
+            }
+        }
+        let mut free: Vec<usize> = (0..64).filter(|&q| cs[q] == 0).collect();
+        let mut take = |rng: &mut rand::rngs::StdRng| {
+            let i = rng.gen_range(0..free.len());
+            free.swap_remove(i)
+        };
+        let (a, b2) = (take(&mut rng), take(&mut rng));
+        cs[a] = 6;
+        cs[b2] = 12;
+        for _ in 0..rng.gen_range(0..3) {
+            let q = take(&mut rng);
+            cs[q] = [2, 3, 4, 5, 8, 9, 10, 11][rng.gen_range(0..8)];
+        }
+        let wtm = rng.gen_bool(0.5);
+        if proj::playable(&cs, wtm) {
+            boards.push(proj::build_from(&cs, wtm, "", None));
+        }
+    }
+    // positions of every phase from random games
+    let target = boards.len() + want;
+    while boards.len() < target {
+        let mut b = Board::default();
+        let stop_at = rng.gen_range(4..200);
+        for ply in 0..stop_at {
+            let moves = mg.generate_moves(&b);
+            if moves.is_empty() {
+                break;
+            }
+            if ply + 1 == stop_at {
+                boards.push(b);
+            }
+            let caps: Vec<&Move> = moves.iter().filter(|m| m.move_type != MoveType::Quiet).collect();
+            let m = if !caps.is_empty() && rng.gen_bool(0.4) { *caps[rng.gen_range(0..caps.len())] } else { moves[rng.gen_range(0..moves.len())] };
+            b.make_move(&m);
+        }
+    }
+    let mut seen: std::collections::HashSet<String> = std::collections::HashSet::new();
+    let (mut kept, mut plain_kept, mut total, mut searches) = (0usize, 0usize, 0u64, 0u64);
+    let per_board = (cap / boards.len().max(1)).max(6);
+    for b in boards.iter() {
+        if !proj::playable_board(b) {
+            continue;
+        }
+        let mut here = 0usize;
+        for d in 1..=maxdepth {
+            crate::search::verif::set_sink(true);
+            let _ = catch_unwind(AssertUnwindSafe(|| {
+                let mut s = Searcher::new();
+                s.find_best_move(b, d, None)
+            }));
+            let evs = crate::search::verif::set_sink(false);
+            searches += 1;
+            for (_, e) in evs {
+                if let crate::search::verif::Ev::Quiet { board, moves, .. } = e {
+                    total += 1;
+                    let key = proj::project(&board);
+                    if seen.contains(&key) {
+                        continue;
+                    }
+                    let texts: Vec<String> = moves.iter().map(proj::move_text).collect();
+                    let promo = moves.iter().any(|m| m.move_type == MoveType::Promotion);
+                    // (the engine's own check test is used for SAMPLING only: which nodes to keep)
+                    let chk = catch_unwind(AssertUnwindSafe(|| mg.is_in_check(&board))).unwrap_or(true);
+                    let interesting = promo || chk;
+                    if kept >= cap || here >= 3 * per_board || (!interesting && (here >= per_board || plain_kept * 2 > cap || !rng.gen_bool(0.25))) {
+                        continue;
+                    }
+                    seen.insert(key.clone());
+                    kept += 1;
+                    here += 1;
+                    if !interesting {
+                        plain_kept += 1;
+                    }
+                    writeln!(w, "{}", json!({"ev":"reset","pos":proj::project_struct(&board)})).ok();
+                    writeln!(w, "{}", json!({"ev":"qnode","fen":key,"moves":texts,"root":proj::project6(b),"d":d})).ok();
+                }
+            }
+        }
+    }
+    w.flush().ok();
+    println!("{}", json!({"summary":true,"searches":searches,"quiescence_nodes_entered":total,"nodes_recorded":kept}));
+    0
+}
